@@ -51,8 +51,8 @@ CLAIMED = {
         technique="TLA+ machine of the index-selection adaptor chain model-checked with TLC; TLC-enumerated run groups executed on the real loader; recorded groups validated by a TLC trace spec",
         ref="6 C08"),
     "C09": dict(
-        text="TLC explores Pipe.tla with the consumer's Drop enabled at every point (invariants: look-ahead <= channel capacity + workers independent of the upstream length, at most one further pull per worker after the drop; liveness: every worker exits after a drop) and with a panicking item (with the process-exiting hook the run ends; without it TLC finds the wedged consumer - negative control), and Buffered.tla for capacities 0..2 (negative control: a producer that ignores the failed send violates the bound). Binding: edge covers of both state graphs are replayed on the real Pipe (hooks) and the real Buffered (its upstream iterator is the schedule point); random controlled schedules with drops, free-running abandon runs incl. an effectively unbounded upstream, and child processes with a panicking item are recorded and judged by the TLC monitor Trace_PipeObs; Pipe runs are also validated against the mechanism (Trace_Pipe).",
-        note="Bounded: graphs W<=2,N<=2 (quick) / W<=3,N<=3 (thorough), Buffered N<=3/5, cap 0..2; random W<=4, caps {0,1,2,3,16}. Thread exit is observed via the drop of the upstream iterator; hang = no exit signal within 1.5-10 s for microsecond work (timing-only verdicts re-run once). std mpsc semantics trusted.",
+        text="TLC explores Pipe.tla with the consumer's Drop enabled at every point (invariants: look-ahead <= channel capacity + workers independent of the upstream length, at most one further pull per worker after the drop; liveness: every worker exits after a drop) and with a panicking item (with the process-exiting hook the run ends; without it, with a hook installed after the workers started, or with a hook that a finishing worker takes away again TLC finds the wedged consumer - negative controls), and Buffered.tla for capacities 0..2 (negative control: a producer that ignores the failed send violates the bound). Binding: edge covers of both state graphs are replayed on the real Pipe (hooks) and the real Buffered (its upstream iterator is the schedule point); random controlled schedules with drops, free-running abandon runs incl. an effectively unbounded upstream, runs with an upstream of 800 items and a consumer that idles before it drops, and child processes with a panicking item (at once / delayed, fewer items than workers, after an earlier pipe) are recorded and judged by the TLC monitor Trace_PipeObs. The monitor's bound clauses state the property (a constant of thread count and buffer size: 4*(threads+buffer)+8); the exact bounds of the code as written and the validation against the mechanism (Trace_Pipe, Trace_Buffered) are the conformance layer (DRIFT).",
+        note="Bounded: graphs W<=2,N<=2 (quick) / W<=3,N<=3 (thorough), Buffered N<=3/5, cap 0..2; random W<=4, caps {0,1,2,3,16}. Thread exit is observed via the drop of the upstream iterator; hang = no exit signal within 5-10 s for microsecond work; a timing-only verdict of a controlled schedule is re-run once and must be confirmed by free-running runs of the same configuration, else it is DRIFT. std mpsc semantics trusted.",
         technique="TLA+ specs of Pipe (drop, panic+hook) and Buffered model-checked with TLC incl. negative controls; graph edge covers replayed as controlled schedules; recorded runs judged by TLC monitor/trace specs",
         ref="6 C09"),
     "C15": dict(
